@@ -1,4 +1,4 @@
-"""C07 -- import tidying never changes what a name means (R07.1-R07.9)."""
+"""C07 -- import tidying never changes what a name means (R07.1-R07.12)."""
 from __future__ import annotations
 
 import ast
@@ -19,7 +19,7 @@ EXPLANATION = (
     "visit<Name> method on the base visitor (dispatch is by class name).  R07.5: the used-name recorder adds every "
     "dotted prefix of a used primary (the one-time selector needs prefix-closure).  R07.6: in the star-import branch the "
     "stateful selector is consulted only until its first acceptance.  R07.7: a from-import is identified by (module_name, level): "
-    "module_name equality between two infos is always paired with level equality, and a rebuilt FromImport keeps the level of its source.  R07.8: `import a.b` is covered by `import a` only on a dotted prefix that ends in the dot.  R07.9: the resource the self-import visitor compares with is its constructor argument, unchanged.  Idempotence, re-emitted text and sort keys "
+    "module_name equality between two infos is always paired with level equality, and a rebuilt FromImport keeps the level of its source.  R07.8: `import a.b` is covered by `import a` only on a dotted prefix that ends in the dot.  R07.9: the resource the self-import visitor compares with is its constructor argument, unchanged.  R07.10: relative module lookup climbs (level - 1) packages on every path.  R07.11: merging from-imports decides 'already imported' on (name, alias) pairs.  R07.12: the local unbound-name finder tells global declarations from local bindings.  Idempotence, re-emitted text and sort keys "
     "are not decided."
 )
 ASSUMPTIONS = ["scope-opening constructors without a handler in the finder (async def, lambda, comprehensions) only make more names count as used: conservative, not armed"]
@@ -33,6 +33,11 @@ def check(ctx, res) -> None:
     _check_main(ctx, res)
     _from_import_identity_rule(ctx, res)
     _self_identity_rule(ctx, res)
+    _alias_pair_rule(ctx, res)
+    _global_declaration_rule(ctx, res)
+    from .common import relative_level_rule
+
+    relative_level_rule(ctx, res, "R07.10")
     from .common import prefix_boundary_rule
 
     prefix_boundary_rule(ctx, res, "R07.8", ["rope.refactor.importutils.actions.AddingVisitor.visitNormalImport"])
@@ -351,3 +356,69 @@ def _self_identity_rule(ctx, res) -> None:
                 "__init__.py `from . import sub` / `from pkg import sub` are taken for imports of the module's own names and deleted, so the "
                 "submodule names stop resolving (NameError on import of the package)", function=init.qualname)
     res.floor("R07.9", "identity attributes of the self-import visitor", n, 1)
+
+
+def _alias_pair_rule(ctx, res, rule: str = "R07.11") -> None:
+    """R07.11: an import binds its alias when it has one: `from m import helper as h` does NOT provide `helper`.  Where a
+    from-import is merged into an existing statement, "already there" is decided on the whole (name, alias) pair."""
+    idx = ctx.idx
+    f = idx.need_func("rope.refactor.importutils.actions.AddingVisitor.visitFromImport")
+    n = 0
+    for lp in [x for x in walk_local(f.node) if isinstance(x, ast.For)]:
+        if not any(isinstance(y, ast.Attribute) and y.attr == "names_and_aliases" for y in ast.walk(lp.iter)):
+            continue
+        tvars = {t.id for t in ast.walk(lp.target) if isinstance(t, ast.Name)}
+        whole = lp.target.id if isinstance(lp.target, ast.Name) else None
+        for x in [y for s_ in lp.body for y in [s_, *walk_local(s_)]]:
+            if isinstance(x, ast.Compare) and len(x.ops) == 1 and isinstance(x.ops[0], (ast.In, ast.NotIn)) and \
+                    any(isinstance(y, ast.Name) and y.id in tvars for y in ast.walk(x.left)):
+                n += 1
+                ok = (isinstance(x.left, ast.Name) and x.left.id == whole) or \
+                    (isinstance(x.left, ast.Tuple) and len(x.left.elts) == 2 and all(isinstance(e, ast.Name) and e.id in tvars for e in x.left.elts))
+                res.add(rule, f"AddingVisitor.visitFromImport|pair-membership#{n}", ok, f"{f.unit.rel}:{x.lineno}",
+                        "'already imported' is decided on the whole (name, alias) pair" if ok else
+                        f"AddingVisitor.visitFromImport decides that a name is already imported with `{ast.unparse(x)}` (not on the whole (name, alias) pair): "
+                        "an existing `from m import helper as h` is taken to provide `helper`, the needed `from m import helper` is dropped and the "
+                        "bare name is unbound afterwards (NameError)", function=f.qualname)
+    res.floor(rule, "membership tests while merging from-imports", n, 1)
+
+
+def _global_declaration_rule(ctx, res, rule: str = "R07.12") -> None:
+    """R07.12: the scope visitors enter a name declared `global` into the function's name table (they must: R01.2).  A
+    consumer that asks "is this name bound in the local scope?" by membership in that table therefore has to tell a
+    global declaration from a local binding, or a function that uses a module-level import through `global` looks as if
+    it did not use it.  The local finder's truthy answer is conjoined with such a distinction (an identity comparison
+    with the module scope's entry, or an inspection of Global nodes)."""
+    from ..cfg import CFG
+
+    idx = ctx.idx
+    f = idx.need_func("rope.refactor.importutils.module_imports._LocalUnboundNameFinder.is_bound")
+    cls = f.cls
+
+    def distinguishes(fn, depth=0) -> bool:
+        for x in ast.walk(fn.node):
+            if isinstance(x, ast.Compare) and any(isinstance(o, (ast.Is, ast.IsNot)) for o in x.ops) and \
+                    any(isinstance(y, ast.Call) and call_name(y) in ("get_module", "_get_global_scope") for y in ast.walk(fn.node)):
+                return True
+            if isinstance(x, ast.Attribute) and x.attr in ("Global", "Nonlocal") and isinstance(x.value, ast.Name) and x.value.id == "ast":
+                return True
+        if depth < 2 and cls is not None:
+            for c in calls_in(fn.node):
+                if is_self_attr(c.func) and c.func.attr in cls.methods and cls.methods[c.func.attr] is not fn:
+                    if distinguishes(cls.methods[c.func.attr], depth + 1):
+                        return True
+        return False
+
+    cfg = CFG(f.node)
+    truthy = [nd for nd in cfg.nodes if nd.kind == "stmt" and isinstance(nd.ast, ast.Return) and nd.ast.value is not None
+              and not (isinstance(nd.ast.value, ast.Constant) and not nd.ast.value.value)
+              and (any(isinstance(y, ast.Compare) and isinstance(y.ops[0], ast.In) for y in ast.walk(nd.ast.value))
+                   or any(pol and isinstance(t, ast.Compare) and isinstance(t.ops[0], ast.In) for t, pol in cfg.guards(nd.id)))]
+    if not truthy:
+        raise AnalysisError("anchor=_LocalUnboundNameFinder.is_bound: answer by membership in the scope's names not found")
+    ok = distinguishes(f)
+    res.add(rule, "_LocalUnboundNameFinder.is_bound|global-declarations", ok, f.where,
+            "membership in the local name table is qualified by a test for global declarations" if ok else
+            "_LocalUnboundNameFinder.is_bound answers 'bound locally' for every name in the function's name table, which also holds the names the "
+            "function declares `global`: `global os` + `os.getcwd()` in a function is not counted as a use of the module-level `import os`, and "
+            "organize_imports removes the import (NameError at run time)", function=f.qualname)
